@@ -18,7 +18,8 @@ from sim.seams import rebind
 PROP = "C19"
 LEVEL = "exploration"
 RULE = (
-    "seeded interleavings (40-260 moves) of the two parties with sticky phases; move kinds: update, update with 2 rows, label, "
+    "seeded interleavings (40-260 moves) of the two parties with sticky phases (plus, index-derived, every interleaving of 6 move kinds "
+    "up to length 5 (thorough: 6) on one small configuration); move kinds: update, update with 2 rows, label, "
     "label with renamed / missing / extra column, label with 2 rows - issued whether legal or not; x sensitivity x k x oracle "
     "length (None or >= k) x reference size x margin width; after every move: refusal exactly when the protocol says so, "
     "refused moves change no observable, state / waiting flag / margin density / reference statistics / counters equal the "
@@ -51,9 +52,52 @@ def margin_fn(det, sample, clf):
     return int(abs(sample[0] - clf.t_) <= clf.margin)
 
 
+ENUM_KINDS = ["update_in", "update_out", "label_ok", "label_wrong", "update2", "label_renamed"]
+ENUM_DEPTH = {"quick": 5, "thorough": 6}
+INDEXED_SCENARIOS = ("enum",)
+
+
+def _enum_total(depth):
+    return sum(len(ENUM_KINDS) ** d for d in range(1, depth + 1))
+
+
 def scenarios(tier):
     k = 1 if tier == "quick" else 10
-    return [("protocol", 260 * k), ("legal", 60 * k)]
+    # "enum": index-derived enumeration of EVERY interleaving of 6 move kinds up to a bounded length on one small
+    # configuration (the property's own quantifier for short histories); supplementary to the seeded interleavings
+    return [("protocol", 260 * k), ("legal", 60 * k), ("enum", _enum_total(ENUM_DEPTH[tier]))]
+
+
+def gen_indexed(scenario, i, tier):
+    """i-th move sequence in length-lexicographic order over ENUM_KINDS."""
+    n = len(ENUM_KINDS)
+    d = 1
+    while i >= n ** d:
+        i -= n ** d
+        d += 1
+    seq = []
+    for _ in range(d):
+        seq.append(ENUM_KINDS[i % n])
+        i //= n
+    # a fixed, well separated reference (threshold near 0, margin 0.5); sensitivity so small that the first
+    # in-margin / out-of-margin sample that moves the density already warns
+    ref = [[(1.0 if j % 2 else -1.0) + 0.1 * ((j * 7) % 5 - 2), 0.25 * ((j * 3) % 4), j % 2] for j in range(12)]
+    cfg = {"N": 12, "k": 2, "sensitivity": 0.01, "oracle_len": 2, "margin": 0.5}
+    ev = []
+    for m in seq:
+        if m == "update_in":
+            ev.append(["update", [[0.1, 0.0, 1]]])
+        elif m == "update_out":
+            ev.append(["update", [[2.0, 0.0, 1]]])
+        elif m == "label_ok":
+            ev.append(["label", [[1.5, 0.0, 1]]])
+        elif m == "label_wrong":
+            ev.append(["label", [[1.5, 0.0, 0]]])
+        elif m == "update2":
+            ev.append(["update2", [[0.1, 0.0, 1], [2.0, 0.0, 0]]])
+        else:
+            ev.append(["label_renamed", [[1.5, 0.0, 1]]])
+    return {"cfg": cfg, "ref": ref, "events": ev}
 
 
 def _row(rng, shift, flip):
